@@ -17,7 +17,7 @@ func init() { Register(c10{}) }
 func (c10) ID() string    { return "C10" }
 func (c10) Level() string { return "fault_enumeration" }
 func (c10) Rule() string {
-	return "workload = valid file from a seeded fault-free writer run (>= 2 row groups in half of the files) x source kind {ReadSeeker, ReadSeeker+ByteReader}. Cases per file: for EVERY source call k (Read, ReadByte and Seek share one counter) of the fault-free read: err0 transient (always); partial (n>0 bytes + error), early_eof ((0, io.EOF) before the end), and the sticky variants (fail from call k on) at a seeded 1-in-8 sample of k in quick and at every k in thorough; a Seek call fails with an error whatever the kind. Thorough adds an arm where the faulted read is also randomly fragmented, and 1% files of the large class (pages of 100..1200 records) with a seeded sample of about 400 call positions. Non-trivial = the fault actually fired (the source returned it); distinct = distinct (file digest, source kind, k, kind)."
+	return "workload = valid file from a seeded fault-free writer run (>= 2 row groups in half of the files) x source kind {ReadSeeker; +ByteReader; +ByteReader+ReaderAt+WriterTo}. Cases per file: for EVERY source call k (Read, ReadByte and Seek share one counter) of the fault-free read: err0 transient (always); partial (n>0 bytes + error), early_eof ((0, io.EOF) before the end), and the sticky variants (fail from call k on) at a seeded 1-in-8 sample of k in quick and at every k in thorough; a Seek call fails with an error whatever the kind. Thorough adds an arm where the faulted read is also randomly fragmented, and 1% files of the large class (pages of 100..1200 records) with a seeded sample of about 400 call positions. Non-trivial = the fault actually fired (the source returned it); distinct = distinct (file digest, source kind, k, kind)."
 }
 func (c10) Assumptions() []string {
 	return []string{
@@ -55,7 +55,7 @@ func (p c10) Run(runseed uint64, tier string, acc *Acc) []*core.Violation {
 		acc.Unusable++
 		return nil
 	}
-	kind := []string{"rs", "rsb"}[r.Intn(2)]
+	kind := []string{"rs", "rsb", "rsx"}[r.Intn(3)]
 	limit := 2*len(f.Want) + 16
 	base, bsrc := baselineRead(f.W.Shape, f.Data, kind, limit)
 	if !usableBaseline(base, f.Want) {
@@ -205,7 +205,7 @@ func (p c10) Shrink(c *core.Case) []*core.Case {
 		n.SrcFault = &g
 		out = append(out, &n)
 	}
-	if c.SourceKind == "rsb" {
+	if c.SourceKind == "rsb" || c.SourceKind == "rsx" {
 		n := *c
 		n.SourceKind = "rs"
 		out = append(out, &n)
